@@ -56,4 +56,24 @@ TEXT["C20"] = {
              "fall-backs), version labels. Correspondence: exhaustive dump of all 36 metric types and both version types.",
     "ref": "5 (C20)", "note": _NOTE,
     "technique": "Lean 4 proof (decide on tables + generic find? lemmas) + exhaustive table-dump correspondence"}
+_PNOTE = ("Trusted: Lean kernel; Spec/Grammar*.lean as the formal reading of the property; the harness/driver/check.py. The theorem holds for "
+          "every byte string on the hand-written model; its transfer to /repo is a seeded, systematic but finite correspondence.")
+TEXT["C07"] = {
+    "level": "Theorem accept3_iff: for every level and EVERY list of bytes the model's decoder accepts iff the string is in the grammar wf3 "
+             "(proved by induction over the token list with the core splitOn lemmas and a fold invariant; no bound on length). Correspondence: "
+             "systematic single-edit neighbourhoods of seeded vectors + random bytes, accept/reject compared with model and grammar oracle.",
+    "ref": "5 (C07)", "note": _PNOTE, "technique": "Lean 4 proof by induction (all byte strings) + edit-neighbourhood correspondence"}
+TEXT["C08"] = {
+    "level": "Theorem accept2_iff: for every level and every list of bytes the v2 model decoder accepts iff the string is canonical "
+             "(canon2); encode2_identity. Correspondence as C07 with v2 edits (group reorder, partial groups, prefixes).",
+    "ref": "5 (C08)", "note": _PNOTE, "technique": "Lean 4 proof by induction (all byte strings) + edit-neighbourhood correspondence"}
+TEXT["C09"] = {
+    "level": "Theorems decode3_fields / decode2_fields (every field = value of the written code; unwritten v3 optional = Not Defined; v2 group "
+             "emptiness), decode3_perm (any permutation of the tokens gives the identical object), decode3_X_omit, queries depend only on "
+             "version and fields. Correspondence: field/name dumps through the verif hooks on seeded accepted vectors.",
+    "ref": "5 (C09)", "note": _PNOTE, "technique": "Lean 4 proof (fold invariant corollaries) + field-dump correspondence"}
+TEXT["C10"] = {
+    "level": "Theorems encode3_canonical (= Spec canon3), decode3_encode_decode, encode2_identity, decode2_encode_decode for every accepted "
+             "string. Correspondence: Encode/String/re-decode on every accepted string of the streams.",
+    "ref": "5 (C10)", "note": _PNOTE, "technique": "Lean 4 proof (splitOn/intercalate round trip) + encode/re-decode correspondence"}
 NOT_YET = {}
